@@ -23,6 +23,9 @@ EXPLANATION = (
     "identity-bearing component of the callable. That the binding is right for every signature x call shape is a value-level "
     "claim and is NOT decided here."
 )
+EXPLANATION += (
+    " " + 'The memo key must also identify the unwrapped function the signature is read from (inspect follows __wrapped__; the outer code object alone is shared by everything one decorator wrapped).'
+)
 ASSUMPTIONS = ["inspect.Signature.parameters ordering and Parameter.kind semantics (standard library)"]
 TRUSTED = ["/verif/sa path enumerator"]
 
